@@ -77,8 +77,8 @@ macro_rules! perp_world {
                     FeeParams, PositionParams, PriceImpactParams,
                 },
                 price::{Price, Prices},
-                Balance, BalanceExt, BaseMarket, BorrowingFeeMarket, BorrowingFeeMarketMutExt, LiquidityMarket,
-                LiquidityMarketMutExt, MarketAction, PerpMarket, PerpMarketMutExt, Position, PositionExt, PositionImpactMarketMutExt,
+                Balance, BalanceExt, BaseMarket, BorrowingFeeMarket, BorrowingFeeMarketMutExt, LiquidityMarket, LiquidityMarketExt,
+                LiquidityMarketMutExt, PnlFactorKind, MarketAction, PerpMarket, PerpMarketMutExt, Position, PositionExt, PositionImpactMarketMutExt,
                 PositionMutExt, PositionState, SwapMarketMutExt,
             };
             use hcommon::Rng;
@@ -384,6 +384,32 @@ macro_rules! perp_world {
                                 Err(e) => crate::perp::perp_err(&e),
                             })
                         }
+                        // mkt-liq's liquidity operations WITH the session's open interest (pool value with pending
+                        // borrowing fees and capped pnl)
+                        "dep" => {
+                            let (l, sh) = (n(0)?, n(1)?);
+                            let pr = prices_at(2)?;
+                            Some(match self.atomic(|m, _| m.deposit(l, sh, pr)?.execute()) {
+                                Ok(r) => format!("ok {} {} {} {} {} {}", r.minted(), r.price_impact(), r.long_token_fees().fee_amount_for_pool(), r.long_token_fees().fee_amount_for_receiver(),
+                                    r.short_token_fees().fee_amount_for_pool(), r.short_token_fees().fee_amount_for_receiver()),
+                                Err(e) => format!("err {}", crate::mkt::err_tag(&e)),
+                            })
+                        }
+                        "wdr" => {
+                            let amt = n(0)?;
+                            let pr = prices_at(1)?;
+                            Some(match self.atomic(|m, _| m.withdraw(amt, pr)?.execute()) {
+                                Ok(r) => format!("ok {} {} {} {} {} {}", r.long_token_output(), r.short_token_output(), r.long_token_fees().fee_amount_for_pool(), r.long_token_fees().fee_amount_for_receiver(),
+                                    r.short_token_fees().fee_amount_for_pool(), r.short_token_fees().fee_amount_for_receiver()),
+                                Err(e) => format!("err {}", crate::mkt::err_tag(&e)),
+                            })
+                        }
+                        "pv" => {
+                            let kind = match *a.first()? { "0" => PnlFactorKind::MaxAfterDeposit, "1" => PnlFactorKind::MaxAfterWithdrawal, "2" => PnlFactorKind::MaxForTrader, "3" => PnlFactorKind::ForAdl, "4" => PnlFactorKind::MinAfterAdl, _ => return None };
+                            let mx = b(1)?;
+                            let pr = prices_at(2)?;
+                            Some(match self.m.pool_value(&pr, kind, mx) { Ok(v) => format!("ok {v}"), Err(_) => "err Fail".into() })
+                        }
                         "chk" => {
                             let pid: u64 = a.first()?.parse().ok()?;
                             let (mc, fl) = (b(1)?, b(2)?);
@@ -559,7 +585,10 @@ macro_rules! perp_world {
                         0 => { self.stage = 1; let cv = random_cfg(r); self.mcf = cv[32]; let c: Vec<String> = cv.iter().map(|x| x.to_string()).collect(); return Some(format!("perp new {sid} {W} {UNIT} {}", c.join(" "))); }
                         1 => { self.stage = 2; return Some(format!("perp setpool {sid} 0 {} {}", 1_000_000_000 + r.below(1_000_000_000_000), r.below(100_000_000_000_000))); }
                         2 => { self.stage = 3; return Some(format!("perp setpool {sid} 7 {} 0", *r.pick(&[0u64, 1_000_000, 50_000_000_000]))); }
-                        3 => { self.stage = 4; let p = self.price_str(r); self.pending = vec![format!("perp ufund {sid} {p}"), format!("perp ubor {sid} {p}")]; return Some(format!("perp dist {sid}")); }
+                        3 => { self.stage = 4; let p = self.price_str(r); self.pending = vec![format!("perp ufund {sid} {p}"), format!("perp ubor {sid} {p}")];
+                            // half of the histories: liquidity provided by a real deposit too (market token supply > 0)
+                            if r.chance(1, 2) { self.pending.push(format!("perp dep {sid} {} {} {p}", 1_000_000_000 + r.below(1_000_000_000_000), r.below(100_000_000_000_000))); }
+                            return Some(format!("perp dist {sid}")); }
                         _ => {}
                     }
                     let s = db.get(&sid)?;
@@ -659,6 +688,20 @@ macro_rules! perp_world {
                             let pr = self.price_str(r);
                             self.pending = vec![format!("perp dec {sid} {pid} {} 0 1 1 0 {pr}", p.size_in_usd)];
                             Some(format!("perp chk {sid} {pid} 1 1 {pr}"))
+                        }
+                        7 if !self.roundtrip => {
+                            // liquidity operations with open interest: pool value, deposit, withdrawal
+                            let supply = s.m.total_supply;
+                            let kind = r.below(5); let mx = r.below(2);
+                            self.pending = vec![format!("perp pv {sid} {kind} {mx} {pr}")];
+                            Some(match r.below(3) {
+                                0 => { let v = (*r.pick(&[0u64, 1_000, 50_000_000, 3_000_000_000_000]) + r.below(1000)) as $U;
+                                    let (l, sh) = match r.below(3) { 0 => (v / self.px.max(1) as $U, 0), 1 => (0, v), _ => (v / self.px.max(1) as $U, v / 3) };
+                                    format!("perp dep {sid} {l} {sh} {pr}") }
+                                1 => { let amt = match r.below(4) { 0 => supply, 1 => supply / 2, 2 => supply / 1000 * r.below(1000) as $U, _ => r.below(1_000_000) as $U };
+                                    format!("perp wdr {sid} {amt} {pr}") }
+                                _ => format!("perp pv {sid} {} {} {pr}", r.below(5), r.below(2)),
+                            })
                         }
                         _ => {
                             let secs = *r.pick(&[0u64, 1, 60, 3600, 86400, 30 * 86400]);
@@ -782,7 +825,7 @@ pub fn run_bin(prop: &str) {
         let ok = rt[0] == "ok";
         out.stat(&format!("{op}.{}", if ok { "ok".to_string() } else { head.replace(' ', "_") }));
         if op == "new" && ok { track.insert(sid.clone(), Track { cfg: t[5..].iter().map(|x| x.to_string()).collect(), ..Default::default() }); }
-        let mut nt = ok && matches!(op, "inc" | "dec" | "ubor" | "ufund");
+        let mut nt = ok && matches!(op, "inc" | "dec" | "ubor" | "ufund" | "dep" | "wdr" | "pv");
         if resp != "bad-op" && resp != "panic" {
             // ---------------- C07: after EVERY operation (successful or failed)
             if prop == "C07" {
@@ -841,6 +884,15 @@ pub fn run_bin(prop: &str) {
                         if bi(rt[23]) + bi(rt[24]) != BigInt::from(0) { out.stat("funding.claimed"); }
                     }
                     "new" | "setpool" => {}
+                    "dep" if ok => {
+                        // liquidity in: the accounted holdings grow by exactly the tokens deposited (fees and impact stay inside)
+                        let exp = [&l0[0] + bi(t[3]), &l0[1] + bi(t[4])];
+                        if l1 != exp { out.oracle_fail(&format!("deposit: accounted holdings changed by {:?} instead of the tokens in", [&l1[0] - &l0[0], &l1[1] - &l0[1]]), &req); }
+                    }
+                    "wdr" if ok => {
+                        let exp = [&l0[0] - bi(rt[1]), &l0[1] - bi(rt[2])];
+                        if l1 != exp { out.oracle_fail(&format!("withdrawal: accounted holdings changed by {:?} instead of the tokens out", [&l1[0] - &l0[0], &l1[1] - &l0[1]]), &req); }
+                    }
                     _ => { if l1 != l0 { out.oracle_fail("an operation without token flows changed the accounted holdings", &req); } }
                 }
                 // funding residual: literal clause and refined invariant
